@@ -150,8 +150,15 @@ def signed_pad_rows(K, S, A, tname):
                 others = [o for o in ("new_display", "new_lower_exp", "new_upper_exp", "new_lower_hex", "new_upper_hex", "new_binary", "new_octal", "new_debug")
                           if ("::" + o) in fn]
                 if others and others[0] != wanted and not (wanted == "new_display" and others[0] == "new_debug"):
-                    status, detail = core.VIOLATED, "value %d: the magnitude is formatted with %s where %s requires %s" % (v, others[0], tname, wanted)
-                    break
+                    # decisive only when the operand of that formatting call is the magnitude itself (a helper may well use
+                    # `{}` on a mantissa or digit string while assembling the right text)
+                    try:
+                        opnd = guards.ev(args[0][2][0], env, W) if args[0][2] else guards.OPAQUE
+                    except guards.PanicReached:
+                        opnd = guards.OPAQUE
+                    if isinstance(opnd, BN) and opnd.v == abs(v):
+                        status, detail = core.VIOLATED, "value %d: the magnitude is formatted with %s where %s requires %s" % (v, others[0], tname, wanted)
+                        break
                 status, detail = core.UNDECIDED, "formatting function %s" % fn[:80]
                 break
             mag = guards.ev(args[0][2][0], env, W)
